@@ -36,6 +36,9 @@ thread_local! {
     static FTABLE_N: Cell<usize> = const { Cell::new(0) };
     static FREGIONS: Cell<[[usize; 4]; FENCE_CACHE_PAGES]> = const { Cell::new([[0; 4]; FENCE_CACHE_PAGES]) };
     static FENCED_ALLOCS: Cell<usize> = const { Cell::new(0) };
+    /// live-heap ceiling of this thread above which requests are refused (0 = none)
+    static CEILING: Cell<isize> = const { Cell::new(0) };
+    static REFUSED: Cell<usize> = const { Cell::new(0) };
 }
 
 const PAGE: usize = 4096;
@@ -220,6 +223,8 @@ fn table_remove(p: usize) -> bool {
         .unwrap_or(false)
 }
 
+/// 2^47 bytes: the size of the user half of the x86-64 address space
+const IMPOSSIBLE: usize = 1 << 47;
 static GLOBAL_LIVE: AtomicUsize = AtomicUsize::new(0);
 static GLOBAL_CAP: AtomicUsize = AtomicUsize::new(48 << 30);
 
@@ -332,6 +337,18 @@ unsafe fn big_free(ptr: *mut u8, class: usize) {
 
 unsafe impl GlobalAlloc for VAlloc {
     unsafe fn alloc(&self, layout: Layout) -> *mut u8 {
+        if layout.size() >= IMPOSSIBLE {
+            // no allocator can satisfy a request as large as the whole user address space: answer
+            // as every real one does (null; the caller aborts through handle_alloc_error unless
+            // it used a try_ method). The harness cap below is about the sum of sane requests.
+            return std::ptr::null_mut();
+        }
+        let ceiling = CEILING.try_with(|c| c.get()).unwrap_or(0);
+        if ceiling != 0 && LIVE.try_with(|l| l.get()).unwrap_or(0) + layout.size() as isize > ceiling {
+            // a machine with this much memory left: the request fails, as it would there
+            let _ = REFUSED.try_with(|r| r.set(r.get() + 1));
+            return std::ptr::null_mut();
+        }
         account_alloc(layout.size());
         let fence = FENCE.try_with(|g| g.get()).unwrap_or(0);
         if fence != 0 && layout.align() == 1 && layout.size() > 0 && layout.size() <= FENCE_MAX {
@@ -444,6 +461,18 @@ pub fn guarded_scope<R: Copy>(f: impl FnOnce() -> R) -> (R, usize) {
     let r = f();
     GUARD.with(|g| g.set(false));
     (r, DAMAGED.with(|d| d.get()))
+}
+
+/// Runs `f` on a "machine" that has `bytes` of heap left for this thread: requests beyond that are
+/// answered with null, exactly as an allocator out of memory answers them (code that cannot cope
+/// panics or aborts - which is then the observation). Returns (result, refused requests).
+pub fn ceiling_scope<R>(bytes: usize, f: impl FnOnce() -> R) -> (R, usize) {
+    let base = LIVE.with(|l| l.get());
+    REFUSED.with(|r| r.set(0));
+    CEILING.with(|c| c.set(base + bytes as isize));
+    let r = f();
+    CEILING.with(|c| c.set(0));
+    (r, REFUSED.with(|r| r.get()))
 }
 
 /// Runs `f` with fence mode on for this thread (mode 1: blocks end at an inaccessible page, mode 2:
